@@ -1,11 +1,15 @@
 """Engine registry and per-property run plans."""
 from .chain import ChainEngine
+from .mhkernel import MHKernelEngine
 
 REGISTRY = {
     "chain": ChainEngine,
+    "mhkernel": MHKernelEngine,
 }
 
 PLAN = {
     "C14": [{"engine": "chain", "level": "fault_enumeration",
              "quick": {"runs": 3000, "budget_s": 240}, "thorough": {"runs": 60000, "budget_s": 3000}}],
+    "C02": [{"engine": "mhkernel", "level": "exploration",
+             "quick": {"runs": 1500, "budget_s": 240}, "thorough": {"runs": 60000, "budget_s": 3000}}],
 }
